@@ -5,13 +5,17 @@ GO = dict(module="core", pkg="internal/frag", pkgname="frag",
           files={"zz_verif_c05_test.go": "c05/c05_test.go"}, run="TestVerifC05")
 GO_CLIENT = dict(module="core", pkg="client", pkgname="client",
                  files={"zz_verif_c05_send_test.go": "c05/c05_send_client_test.go",
-                        "zz_verif_c05_send_common_test.go": "_gen/c05_send_common_client_test.go"}, run="TestVerifC05SendClient")
+                        "zz_verif_c05_send_common_test.go": "_gen/c05_send_common_client_test.go",
+                        "zz_verif_c05_sess_test.go": "c05/c05_sess_client_test.go",
+                        "zz_verif_c05_sess_common_test.go": "_gen/c05_sess_common_client_test.go"}, run="TestVerifC05SendClient")
 GO_SERVER = dict(module="core", pkg="server", pkgname="server",
                  files={"zz_verif_c05_send_test.go": "c05/c05_send_server_test.go",
-                        "zz_verif_c05_send_common_test.go": "_gen/c05_send_common_server_test.go"}, run="TestVerifC05SendServer")
+                        "zz_verif_c05_send_common_test.go": "_gen/c05_send_common_server_test.go",
+                        "zz_verif_c05_sess_test.go": "c05/c05_sess_server_test.go",
+                        "zz_verif_c05_sess_common_test.go": "_gen/c05_sess_common_server_test.go"}, run="TestVerifC05SendServer")
 GO_ALL = [GO, GO_CLIENT, GO_SERVER]
 PARAMS_NAME = "ParamsC05"
-HEADER = "From Hy Require Import lib.Harness model.C05_Frag model.C05_Send corr.C05_Corr.\nFrom Coq Require Import ZArith.\nLocal Open Scope N_scope.\n"
+HEADER = "From Hy Require Import lib.Harness model.C05_Frag model.C05_Send model.C05_Sess corr.C05_Corr.\nFrom Coq Require Import ZArith.\nLocal Open Scope N_scope.\n"
 RULE = ("seeded generator: FragUDPMessage on boundary sizes (payload budget-1/budget/budget+1, 255*budget, 255*budget+1, 65535; "
         "address lengths 1,63,64,255,2048; limits at/below the header size); Defragger histories (2-4 messages, "
         "permutations, duplicates, drops, interleavings; exhaustive permutations for <=4 fragments); Serialize/Parse round trips and "
@@ -24,7 +28,15 @@ RULE = ("seeded generator: FragUDPMessage on boundary sizes (payload budget-1/bu
         "connection error in the middle of one send; a real Defragger behind the channel; LONG OPERATION: per side one history of "
         "65536 + 1500..3000 fragmented sends on one session (tiny messages, 2-3 fragments, fake IO): a full cycle of any 16-bit id "
         "generator from wherever it stands, the id sequence judged for id 0, per-lag repeat counts within the horizon of 64 sends and "
-        "cyclic structure, a second Defragger behind complementary fragment loss. Non-trivial = the message is actually split (>=2 fragments), or the history emits/withholds "
+        "cyclic structure, a second Defragger behind complementary fragment loss; SESSION MANAGERS (case kind sess; the real "
+        "server udpSessionManager.Run/feed/idle sweeper + udpSessionEntry.Feed and the real client udpSessionManager + udpConn.Receive "
+        "over fake IO on a fake clock): arrival schedules of several sessions on one connection - a fragmented message that OPENS its "
+        "session (no entry yet / entry removed by the idle timeout / right after NewUDP) in every permutation of 2-4 fragments with a "
+        "duplicate, sessions one after the other, round robin and randomly interleaved, packet ids distinct or EQUAL (with equal counts) "
+        "across sessions, complementary losses across sessions, two messages of one session evicting each other, pauses shorter and longer "
+        "than the idle timeout (also between the fragments of one message), client sessions opened/closed during the schedule and "
+        "fragments for ids not open; verdict per session: delivered byte-identical (session, address, payload) or not at all, delivered "
+        "when all fragments arrived with no other packet id of THAT session in between. Non-trivial = the message is actually split (>=2 fragments), or the history emits/withholds "
         "a multi-fragment message, or the parser rejects. Distinct = distinct JSON case.")
 ASSUMPTIONS = [
     "quic-go reports a usable MaxDatagramPayloadSize and sends datagrams at or under it whole (library, not modelled)",
@@ -43,8 +55,9 @@ ASSUMPTIONS = [
     "send paths: the QUIC connection is an oracle (per SendMessage call: a datagram limit L - accept <= L, refuse > L with DatagramTooLargeError{L} - or another error); the random packet id is an oracle argument in 1..65535; C05_send_hist_delivers assumes the drawn ids pairwise distinct and the limit constant during each single send",
 ]
 TRUSTED = ["modelled rather than verified: core/internal/frag/frag.go and the UDPMessage codec of core/internal/protocol/proxy.go (hand transcription in coq/model/C05_Frag.v)",
+           "modelled rather than verified: the routing of arriving messages to per-session reassemblers - server udpSessionManager.feed / udpSessionEntry.Feed up to the Defragger and the idle sweeper, client udpSessionManager.feed / NewUDP / close / udpConn.Receive (hand transcription in coq/model/C05_Sess.v as a map session -> one-slot reassembler; what follows a delivery on the server - dial, hook, policy, write - is C07/C08's)",
            "modelled rather than verified: udpConn.Send (core/client/udp.go), sendMessageAutoFrag (core/server/udp.go) and udpIOImpl.SendMessage (hand transcription in coq/model/C05_Send.v; the model has no state between two sends because the code has none - the differential run over limit histories is what ties this to /repo)"]
-PER_SHARD = 104  # 12 shards = one round on the 12 evaluation workers (each coqc start + first literal costs ~7 s)
+PER_SHARD = 118  # 12 shards = one round on the 12 evaluation workers (each coqc start + first literal costs ~7 s)
 EXTRA_TARGETS = ["corr/C05_Corr.vo"]
 
 
@@ -133,6 +146,7 @@ def gen(rng, tier):
         cases.append({"k": "seq", "msgs": msgs, "order": order[:400]})
     cases += gen_collide(rng, scale)
     cases += gen_send(rng, scale)
+    cases += gen_sess(rng, scale)
     # --- wire format
     for _ in range(150 * scale):
         al = rng.choice([0, 1, 63, 64, 300, 2048, 2049])
@@ -384,6 +398,241 @@ def gen_sendlong(rng, scale):
     return out
 
 
+
+# ---------------------------------------------------------------------------------------------------------------
+# reassembly THROUGH the session managers (case kind "sess")
+
+SESS_IV = 1000    # idleCleanupInterval in ms as the generator assumes it (the harness reports the real one to the model)
+SESS_OFF = 500    # the first operation happens half an interval after the manager started: no arrival on a tick
+
+
+def sess_msg(rng, sid, pid, nfr, al=None, budget=None):
+    """A message of session sid that splits in exactly nfr fragments (nfr == 1: fits whole)."""
+    al = al if al is not None else rng.choice([1, 4, 63, 64])
+    budget = budget if budget is not None else rng.randint(1, 9)
+    dl = rng.randint(1, budget) if nfr == 1 else budget * nfr - rng.randrange(budget)
+    if nfr > 1:
+        dl = max(dl, budget + 1)
+    return {"sid": sid, "pid": pid, "al": al, "aa": rng.randrange(1, 256), "ab": rng.randrange(256),
+            "dl": dl, "da": rng.randrange(1, 256) | 1, "db": rng.randrange(256), "max": hdr(al) + budget}
+
+
+def sess_nfr(m):
+    b = m["max"] - hdr(m["al"])
+    return 1 if m["dl"] <= b else -(-m["dl"] // b)
+
+
+def sess_merge(rng, seqs, mode):
+    """Merge per-session arrival sequences, keeping the order inside each: seq = one after the other, rr = strict
+    round robin (A0 B0 A1 B1 ...), random = random interleaving."""
+    seqs = [list(q) for q in seqs if q]
+    out = []
+    if mode == "seq":
+        for q in seqs:
+            out += q
+    elif mode == "rr":
+        while any(seqs):
+            for q in seqs:
+                if q:
+                    out.append(q.pop(0))
+    else:
+        while any(seqs):
+            q = rng.choice([q for q in seqs if q])
+            out.append(q.pop(0))
+    return out
+
+
+def sess_sids(rng, side, n):
+    if side == "client":
+        return list(range(1, n + 1))
+    pool = [0, 1, 7, 2**32 - 1, 2**31, 256, 65536] + [rng.randrange(2**32) for _ in range(n)]
+    return rng.sample(sorted(set(pool)), n)
+
+
+def sess_case(side, msgs, ops, timeout=3000, cls=""):
+    pre = [[3]] * (max([m["sid"] for m in msgs] + [0]) if side == "client" and cls != "life" else 0)
+    return {"k": "sess", "side": side, "timeout": timeout, "off": SESS_OFF, "msgs": msgs, "ops": (pre + ops)[:600], "cls": cls}
+
+
+def sess_block(rng, j, n, first=None, dups=1, drop=False):
+    """Arrival order of the fragments of message j: a random permutation (first fragment to arrive = `first` when
+    given), dups duplicates inserted anywhere, optionally one fragment lost."""
+    idx = list(range(n))
+    rng.shuffle(idx)
+    if first is not None and n > 1:
+        idx.remove(first % n)
+        idx.insert(0, first % n)
+    if drop and n > 1:
+        idx.pop(rng.randrange(len(idx)))
+    for _ in range(dups):
+        idx.insert(rng.randrange(len(idx) + 1), rng.randrange(n))
+    return [[0, j, x] for x in idx]
+
+
+def gen_sess(rng, scale):
+    """Arrival schedules on one connection, through the real session managers (server: udpSessionManager.Run/feed/
+    sweeper + udpSessionEntry.Feed; client: run/feed + udpConn.Receive):
+      perm    - a fragmented message that OPENS its session (server: no entry yet; client: right after NewUDP), every
+                permutation of 2/3/4 fragments with one duplicate, one session per permutation, sessions one after the
+                other / round robin / randomly interleaved, packet ids all distinct or ALL EQUAL across sessions;
+      reopen  - server: rounds of messages separated by pauses shorter / longer than the idle timeout: messages whose
+                first fragment to arrive is not fragment 0 re-open a session the sweeper removed; fragments straddling
+                a pause (state kept when short, lost when long);
+      inter   - 2-4 sessions with 1-3 messages each (split 1-8 ways, duplicates, losses, two messages of one session
+                interleaved = eviction) interleaved on the connection; equal (packet id, count) across sessions;
+                complementary losses across sessions (A0 of s1, B1 of s2) that a shared slot would assemble;
+      life    - client: sessions opened and closed during the schedule, fragments for ids not (yet / any more) open."""
+    import itertools
+    out = []
+    for side in ("server", "client"):
+        # ---- perm
+        for nfr in (2, 3, 4):
+            perms = list(itertools.permutations(range(nfr)))
+            rng.shuffle(perms)
+            chunks = [perms[i:i + 8] for i in range(0, len(perms), 8)]
+            for ci, chunk in enumerate(chunks):
+                for mode in ("seq", "rr", "random"):
+                    if mode == "random" and nfr == 4 and scale == 1 and ci > 0:
+                        continue
+                    reps = 2 if nfr == 2 else 1          # 2 fragments: both permutations x both duplicates
+                    sess = [(p, d) for p in chunk for d in range(reps)]
+                    sids = sess_sids(rng, side, len(sess))
+                    samepid = rng.random() < 0.5
+                    pid0 = rng.randrange(1, 2**16)
+                    al, budget = rng.choice([1, 4, 63, 64]), rng.randint(1, 9)
+                    msgs, seqs = [], []
+                    for k, (perm, d) in enumerate(sess):
+                        pid = pid0 if samepid else (pid0 + 1 + k * rng.choice([1, 256])) % 65536 or 1
+                        msgs.append(sess_msg(rng, sids[k], pid, nfr, al if samepid else None, budget if samepid else None))
+                        order = [[0, k, x] for x in perm]
+                        dup = d if nfr == 2 else rng.randrange(nfr)
+                        order.insert(rng.randrange(len(order) + 1), [0, k, dup])
+                        seqs.append(order)
+                    out.append(sess_case(side, msgs, sess_merge(rng, seqs, mode), cls="perm"))
+        # real sizes: 2400 bytes under a 1000-byte limit (3 fragments), 3500 under 1200
+        for dl, lim in ((2400, 1000), (3500, 1200)):
+            perms = list(itertools.permutations(range(3)))
+            sids = sess_sids(rng, side, len(perms))
+            msgs, seqs = [], []
+            for k, perm in enumerate(perms):
+                m = sess_msg(rng, sids[k], rng.randrange(1, 2**16), 3, al=23, budget=5)
+                m["dl"], m["max"] = dl, lim
+                msgs.append(m)
+                seqs.append([[0, k, x] for x in perm])
+            out.append(sess_case(side, msgs, sess_merge(rng, seqs, rng.choice(["seq", "rr"])), cls="perm"))
+        # ---- inter
+        for it in range(30 * scale):
+            ns = rng.choice([2, 2, 3, 4])
+            sids = sess_sids(rng, side, ns)
+            pidmode = it % 3          # 0: k-th messages of all sessions share (id, count); 1: all distinct; 2: colliding family
+            fam = pid_family(rng)
+            nm = rng.randint(1, 3)
+            shape = [(rng.randrange(1, 2**16), rng.choice([1, 2, 2, 3, 3, 5, 8]), rng.choice([1, 4, 63, 64]), rng.randint(1, 9))
+                     for _ in range(nm)]
+            msgs, seqs, used = [], [], set()
+            for si, sid in enumerate(sids):
+                q, mine = [], []
+                for k in range(nm if pidmode == 0 else rng.randint(1, 3)):
+                    if pidmode == 0:
+                        pid, nfr, al, budget = shape[k]
+                    else:
+                        pid = fam[(si + k) % len(fam)] if pidmode == 2 else rng.randrange(1, 2**16)
+                        nfr, al, budget = rng.choice([1, 2, 2, 3, 5, 8]), None, None
+                    while (sid, pid) in used or pid == 0:
+                        pid = (pid + 256) % 65536 or 1
+                    used.add((sid, pid))
+                    mine.append(len(msgs))
+                    msgs.append(sess_msg(rng, sid, pid, nfr, al, budget))
+                blocks = [sess_block(rng, j, sess_nfr(msgs[j]), dups=rng.choice([0, 0, 1, 2]), drop=rng.random() < 0.2) for j in mine]
+                if len(blocks) >= 2 and rng.random() < 0.25:
+                    q = sess_merge(rng, blocks[:2], "random") + [o for b in blocks[2:] for o in b]   # eviction inside the session
+                else:
+                    q = [o for b in blocks for o in b]
+                seqs.append(q)
+            out.append(sess_case(side, msgs, sess_merge(rng, seqs, ["rr", "random", "random", "seq"][it % 4]), cls="inter"))
+        # complementary losses across two sessions with equal (id, count): only A's even and B's odd fragments arrive
+        for it in range(6 * scale):
+            sids = sess_sids(rng, side, 2)
+            pid, nfr, al, budget = rng.randrange(1, 2**16), rng.choice([2, 2, 3, 4, 5]), rng.choice([1, 4, 63]), rng.randint(1, 9)
+            msgs = [sess_msg(rng, sid, pid, nfr, al, budget) for sid in sids]
+            ops = [[0, i % 2, i] for i in range(nfr)]
+            if it % 3 == 1:
+                rng.shuffle(ops)
+            if it % 3 == 2:
+                ops += [[0, (i + 1) % 2, i] for i in range(nfr)]     # ... and then the other halves: both complete
+            out.append(sess_case(side, msgs, ops, cls="inter"))
+    # ---- reopen (server)
+    for it in range(26 * scale):
+        timeout = rng.choice([1000, 2000, 3000])
+        ns = rng.choice([1, 2, 2, 3])
+        sids = sess_sids(rng, "server", ns)
+        msgs, ops, used = [], [], set()
+        for rnd in range(rng.randint(2, 4)):
+            seqs = []
+            for sid in sids:
+                if ns > 1 and rng.random() < 0.3:
+                    continue                   # this session is silent in this round (it ages)
+                pid = rng.randrange(1, 2**16)
+                while (sid, pid) in used:
+                    pid = pid % 65535 + 1
+                used.add((sid, pid))
+                nfr = rng.choice([1, 2, 3, 3, 4, 5])
+                j = len(msgs)
+                msgs.append(sess_msg(rng, sid, pid, nfr))
+                n = sess_nfr(msgs[j])
+                blk = sess_block(rng, j, n, first=(rng.randrange(1, n) if n > 1 and rng.random() < 0.8 else None),
+                                 dups=rng.choice([0, 1, 1]), drop=rng.random() < 0.1)
+                seqs.append(blk)
+            arr = sess_merge(rng, seqs, rng.choice(["seq", "rr", "random"]))
+            longp = rng.random() < 0.6
+            pause = [1, (timeout + rng.choice([1, 2, 3]) * SESS_IV) if longp else rng.choice([1, 1, timeout // SESS_IV]) * SESS_IV]
+            if arr and rng.random() < 0.35:
+                cut = rng.randrange(1, len(arr) + 1)       # the pause falls inside the round: fragments straddle it
+                ops += arr[:cut] + [pause] + arr[cut:]
+            else:
+                ops += arr + [pause]
+        out.append(sess_case("server", msgs, ops, timeout=timeout, cls="reopen"))
+    # ---- life (client)
+    for it in range(14 * scale):
+        nopen0 = rng.randint(0, 2)
+        total = nopen0 + rng.randint(1, 3)
+        msgs, used = [], set()
+        per = {}
+        for sid in list(range(1, total + 1)) + [rng.choice([0, total + 1, 2**32 - 1])]:
+            for _ in range(rng.randint(1, 2)):
+                pid = rng.randrange(1, 2**16)
+                if (sid, pid) in used:
+                    continue
+                used.add((sid, pid))
+                per.setdefault(sid, []).append(len(msgs))
+                msgs.append(sess_msg(rng, sid, pid, rng.choice([1, 2, 3, 3, 4])))
+        ops = [[3]] * nopen0
+        opened, closed = nopen0, set()
+        pend = {sid: [o for j in js for o in sess_block(rng, j, sess_nfr(msgs[j]), dups=rng.choice([0, 1]))] for sid, js in per.items()}
+        while any(pend.values()) or opened < total:
+            r = rng.random()
+            if r < 0.15 and opened < total:
+                ops.append([3])
+                opened += 1
+            elif r < 0.22 and opened > len(closed):
+                s = rng.choice([x for x in range(1, opened + 1) if x not in closed])
+                closed.add(s)
+                ops.append([2, s])
+            else:
+                live = [sid for sid, q in pend.items() if q]
+                if not live:
+                    ops.append([3])
+                    opened += 1
+                    continue
+                sid = rng.choice(live)
+                o = pend[sid].pop(0)
+                ops.append(o)
+                if rng.random() < 0.2:
+                    pend[sid].append(o)       # the same fragment arrives again later (e.g. once the session is open)
+        out.append(sess_case("client", msgs, ops, cls="life"))
+    return out
+
+
 def spec_term(m):
     return "(mkSpec %d %d %d %d %d %d %d %d %d %d)" % (m["sid"], m["pid"], m["fid"], m["fc"], m["al"], m["aa"], m["ab"],
                                                         m["dl"], m["da"], m["db"])
@@ -441,6 +690,13 @@ def to_coq(c, o):
             calls = "[" + ";".join("[" + ";".join("(%d)" % x for x in call) + "]" for call in so["calls"]) + "]%Z"
             obs.append("(mkSO %s (%d)%%Z (%d)%%Z %s)" % (calls, so["ret"], so["retL"], ll(so["emits"])))
         return "CSend %d %d%%nat [%s] [%s]" % (c["sid"], o.get("buf") or BUF, ";".join(steps), ";".join(obs))
+    if k == "sess":
+        if o.get("hang") or ("emits" not in o and not o.get("panic")):
+            return None
+        ms = "[" + ";".join("(%s,%s)" % (spec_term(dict(m, fid=0, fc=1)), zlit(m["max"])) for m in c["msgs"]) + "]"
+        exp = "None" if o.get("panic") else "(Some %s)" % ll(o["emits"])
+        return "CSess %s %d %d %d %s %s %s %s" % ("true" if c["side"] == "server" else "false", o.get("iv") or SESS_IV,
+                                                  c["timeout"], c["off"], ms, ll(c["ops"]), exp, nl(o.get("cnts") or []))
     if k == "sendlong":
         if "lags" not in o:
             return None
@@ -465,6 +721,9 @@ def klass(c, o):
         return "wire:" + ("short-buffer" if o.get("n", 0) < 0 else "roundtrip" if "pm" in o else "rejected")
     if k == "sendlong":
         return "sendlong:%s:%s" % (c["side"], ">65536" if o.get("n", 0) > 65536 else "short")
+    if k == "sess":
+        return "sess:%s:%s:%s" % (c["side"], c.get("cls"), "opened-by-later-fragment" if o.get("opened_by_later_fragment")
+                                  else "delivers" if o.get("emits") else "silent")
     return "parse:" + ("ok" if "pm" in o else str(o.get("perr")))
 
 
@@ -480,6 +739,8 @@ def nontrivial(c, o):
         return "pm" in o
     if k == "sendlong":
         return o.get("n", 0) > 65536
+    if k == "sess":
+        return len(c["ops"]) >= 2 and (o.get("expected", 0) > 0 or bool(o.get("emits")))
     return True
 
 
@@ -494,21 +755,23 @@ def fingerprint(c, o):
 
 
 def group_of(c):
-    return 0 if c["k"] not in ("send", "sendlong") else 1 if c["side"] == "client" else 2
+    return 0 if c["k"] not in ("send", "sendlong", "sess") else 1 if c["side"] == "client" else 2
 
 
 def make_send_common():
-    """Instantiate the shared send-path harness file for the two packages (same mechanism as common.make_util)."""
+    """Instantiate the shared harness files (send path, session managers) for the two packages (same mechanism as
+    common.make_util)."""
     import os
-    tmpl = open(os.path.join(common.VERIF, "harness", "go", "c05", "c05_send_common_test.go.tmpl")).read()
     d = os.path.join(common.VERIF, "harness", "go", "_gen")
     os.makedirs(d, exist_ok=True)
-    for pkg in ("client", "server"):
-        p = os.path.join(d, "c05_send_common_%s_test.go" % pkg)
-        text = tmpl.replace("__PKG__", pkg)
-        if not os.path.exists(p) or open(p).read() != text:
-            with open(p, "w") as f:
-                f.write(text)
+    for stem in ("c05_send_common", "c05_sess_common"):
+        tmpl = open(os.path.join(common.VERIF, "harness", "go", "c05", stem + "_test.go.tmpl")).read()
+        for pkg in ("client", "server"):
+            p = os.path.join(d, "%s_%s_test.go" % (stem, pkg))
+            text = tmpl.replace("__PKG__", pkg)
+            if not os.path.exists(p) or open(p).read() != text:
+                with open(p, "w") as f:
+                    f.write(text)
 
 
 def run_go_all(ctx, cases, tag="main", race=False):
@@ -547,7 +810,7 @@ def violations_of(cases, outs):
     v = []
     for c, o in zip(cases, outs):
         if o is not None and o.get("ok") is False:
-            v.append({"what": "%s: %s" % (c.get("k") + ("/" + c["side"] if c.get("k") in ("send", "sendlong") else ""), o.get("why")),
+            v.append({"what": "%s: %s" % (c.get("k") + ("/" + c["side"] if c.get("k") in ("send", "sendlong", "sess") else ""), o.get("why")),
                       "replay": {"case": c, "impl": o}, "fingerprint": fingerprint(c, o), "found_input": True})
     return v
 
@@ -641,7 +904,7 @@ def run(ctx):
     elif mism and impl_bad:
         ctx.say("model/implementation disagree on %d case(s) (implementation also violates the property directly)" % len(mism))
     samples = [{"case": c, "impl": {k: v for k, v in o.items() if k != "i"}} for _, c, o in pairs[:2]]
-    for kind in ("frag", "seq", "send", "sendlong"):
+    for kind in ("frag", "seq", "send", "sendlong", "sess"):
         for _, c, o in pairs:
             if c["k"] == kind and nontrivial(c, o) and len(json.dumps(o)) < 6000:
                 samples.append({"case": c, "impl": {k: v for k, v in o.items() if k != "i"}})
@@ -668,8 +931,9 @@ LEVEL_TEXT = ("Machine-checked Coq theorems over a statement-by-statement Gallin
               "every fragment fits, <=255 fragments or discard (exact iff), any arrival order with duplicates reassembles to the original, "
               "no chimera under distinct packet ids, parse.serialize = id; send paths: whole message first, fragmentation only after a too-large refusal "
               "and only against the limit that refusal reported, stop at the first error, and for every history of limits (constant during each send) "
-              "the far-side Defragger emits exactly the messages that fit, byte-identical. The model is tied to /repo on every run by regenerated "
-              "constants and a differential run of the Go code (internal/frag, client, server) against the model on ~1200 boundary-directed cases (vm_compute in the kernel).")
+              "the far-side Defragger emits exactly the messages that fit, byte-identical; session managers: sessions do not interfere (what a session is handed depends only on "
+              "the operations that concern it), a fragmented message that opens or re-opens a session is delivered exactly once in every arrival order. The model is tied to /repo on every run by regenerated "
+              "constants and a differential run of the Go code (internal/frag, client, server) against the model on ~1400 boundary-directed cases (vm_compute in the kernel).")
 LEVEL_NOTE = ("Trusted: Coq kernel + vm_compute; hand-written model (tie is sampled differential testing + regenerated Params); python/Go glue. "
               "No axioms (all theorems closed under the global context). Not proved: quic-go datagram size reporting; packet-id distinctness is a hypothesis.")
 TECHNIQUE = "Coq proof (induction/invariant over fragment histories) on a hand-written model + differential correspondence check in vm_compute"
